@@ -14,7 +14,7 @@
 //
 // SPDX-License-Identifier: Apache-2.0
 
-use super::Mutator;
+use super::{should_mutate, Mutator};
 use crate::generator::{EntropySource, GenerationSource};
 
 /// Mutates individual characters/bytes in strings.
@@ -32,7 +32,7 @@ impl Mutator for CharacterMutator {
         source: &mut GenerationSource,
         rate: f64,
     ) -> Option<String> {
-        if source.gen_f64() > rate || value.is_empty() {
+        if !should_mutate(source, rate) || value.is_empty() {
             return None;
         }
 
@@ -50,7 +50,7 @@ impl Mutator for CharacterMutator {
         source: &mut GenerationSource,
         rate: f64,
     ) -> Option<Vec<u8>> {
-        if source.gen_f64() > rate || value.is_empty() {
+        if !should_mutate(source, rate) || value.is_empty() {
             return None;
         }
 
